@@ -157,3 +157,91 @@ Proof.
   exists TargetsRole, f. repeat split; [constructor|assumption|now exists []].
 Qed.
 
+
+(** ** a path that a rule of the top-level file matches is never reported unprotected *)
+Definition out_extends (a b : list vrec) : Prop := exists more, b = a ++ more.
+
+Lemma out_extends_refl a : out_extends a a.
+Proof. exists []. symmetry. apply app_nil_r. Qed.
+
+Lemma out_extends_trans a b c : out_extends a b -> out_extends b c -> out_extends a c.
+Proof. intros [m1 ->] [m2 ->]. exists (m1 ++ m2). symmetry. apply app_assoc. Qed.
+
+Lemma group_loop_out_grows pol path : forall g st, out_extends (ws_out st) (ws_out (group_loop pol path g st)).
+Proof.
+  induction g as [|r g IH]; intros st; [apply out_extends_refl|]. destruct g as [|r' g]; [apply out_extends_refl|].
+  cbn [group_loop]. destruct (rule_matches r path); [|apply IH].
+  set (v := {| vr_name := r_name r; vr_thr := r_thr r; vr_pr := map (fun i => (i, lookup_def (ws_defs st) i)) (r_pids r) |}).
+  assert (H1 : out_extends (ws_out st) (ws_out st ++ [v])) by (exists [v]; reflexivity).
+  destruct (mem_name (r_name r) (ws_seen st)).
+  - eapply out_extends_trans; [exact H1|]. apply (IH {| ws_queue := ws_queue st; ws_seen := ws_seen st; ws_defs := ws_defs st; ws_out := ws_out st ++ [v] |}).
+  - destruct (find_file pol (r_name r)) as [f'|].
+    + destruct (r_term r); [exact H1|].
+      eapply out_extends_trans; [exact H1|].
+      apply (IH {| ws_queue := f_rules f' :: ws_queue st; ws_seen := r_name r :: ws_seen st; ws_defs := f_defs f' ++ ws_defs st; ws_out := ws_out st ++ [v] |}).
+    + eapply out_extends_trans; [exact H1|]. apply (IH {| ws_queue := ws_queue st; ws_seen := ws_seen st; ws_defs := ws_defs st; ws_out := ws_out st ++ [v] |}).
+Qed.
+
+Lemma walk_loop_out_grows pol path : forall fuel st vs, walk_loop pol path fuel st = WOk vs -> out_extends (ws_out st) vs.
+Proof.
+  induction fuel as [|fuel IH]; intros st vs; cbn [walk_loop]; destruct (ws_queue st) as [|g q];
+    try discriminate; try (intros [= <-]; apply out_extends_refl).
+  intros H. eapply out_extends_trans; [|apply (IH _ _ H)].
+  apply (group_loop_out_grows pol path g {| ws_queue := q; ws_seen := ws_seen st; ws_defs := ws_defs st; ws_out := ws_out st |}).
+Qed.
+
+Lemma group_loop_cons2 pol path r r' g st :
+  group_loop pol path (r :: r' :: g) st =
+  if rule_matches r path then
+    let v := {| vr_name := r_name r; vr_thr := r_thr r; vr_pr := map (fun i => (i, lookup_def (ws_defs st) i)) (r_pids r) |} in
+    let st1 := {| ws_queue := ws_queue st; ws_seen := ws_seen st; ws_defs := ws_defs st; ws_out := ws_out st ++ [v] |} in
+    if mem_name (r_name r) (ws_seen st) then group_loop pol path (r' :: g) st1
+    else match find_file pol (r_name r) with
+         | Some f =>
+             let st2 := {| ws_queue := f_rules f :: ws_queue st1; ws_seen := r_name r :: ws_seen st1;
+                           ws_defs := f_defs f ++ ws_defs st1; ws_out := ws_out st1 |} in
+             if r_term r then st2 else group_loop pol path (r' :: g) st2
+         | None => group_loop pol path (r' :: g) st1
+         end
+  else group_loop pol path (r' :: g) st.
+Proof. reflexivity. Qed.
+
+(** a group with a matching rule before its last one makes the output strictly longer *)
+Lemma group_loop_keeps_longer pol path n g st1 :
+  n < List.length (ws_out st1) -> n < List.length (ws_out (group_loop pol path g st1)).
+Proof.
+  intros H. destruct (group_loop_out_grows pol path g st1) as [more ->]. rewrite app_length. lia.
+Qed.
+
+Lemma group_loop_consults_match pol path : forall g st,
+  (exists r, In r (removelast g) /\ rule_matches r path = true) ->
+  List.length (ws_out st) < List.length (ws_out (group_loop pol path g st)).
+Proof.
+  induction g as [|r g IH]; intros st [r0 [Hin Hm]]; [destruct Hin|]. destruct g as [|r' g]; [destruct Hin|].
+  rewrite group_loop_cons2. cbv zeta. destruct (rule_matches r path) eqn:Er.
+  - destruct (mem_name (r_name r) (ws_seen st)).
+    + apply group_loop_keeps_longer. cbn [ws_out]. rewrite app_length. cbn. lia.
+    + destruct (find_file pol (r_name r)) as [f'|].
+      * destruct (r_term r).
+        -- cbn [ws_out]. rewrite app_length. cbn. lia.
+        -- apply group_loop_keeps_longer. cbn [ws_out]. rewrite app_length. cbn. lia.
+      * apply group_loop_keeps_longer. cbn [ws_out]. rewrite app_length. cbn. lia.
+  - apply IH. cbn [removelast] in Hin. destruct Hin as [<-|Hin]; [congruence|]. exists r0. split; [exact Hin|exact Hm].
+Qed.
+
+Theorem top_level_match_is_protected pol path f vs :
+  find_file pol TargetsRole = Some f ->
+  (exists r, In r (removelast (f_rules f)) /\ rule_matches r path = true) ->
+  find_verifiers pol path = WOk vs -> vs <> [].
+Proof.
+  intros Hf Hex H. unfold find_verifiers in H. rewrite Hf in H.
+  set (st0 := {| ws_queue := [f_rules f]; ws_seen := [TargetsRole]; ws_defs := f_defs f; ws_out := [] |}) in H.
+  change (walk_loop pol path (S (List.length pol)) st0)
+    with (walk_loop pol path (List.length pol)
+            (group_loop pol path (f_rules f) {| ws_queue := []; ws_seen := [TargetsRole]; ws_defs := f_defs f; ws_out := [] |})) in H.
+  pose proof (walk_loop_out_grows _ _ _ _ _ H) as [more Hmore].
+  pose proof (group_loop_consults_match pol path (f_rules f)
+                {| ws_queue := []; ws_seen := [TargetsRole]; ws_defs := f_defs f; ws_out := [] |} Hex) as Hlt.
+  cbn [ws_out List.length] in Hlt. intros ->. symmetry in Hmore. apply app_eq_nil in Hmore. destruct Hmore as [E _].
+  rewrite E in Hlt. cbn in Hlt. lia.
+Qed.
